@@ -5,6 +5,7 @@ import (
 	"context"
 	"fmt"
 	"regexp"
+	"sync"
 
 	"git.defalsify.org/vise.git/cache"
 	"git.defalsify.org/vise.git/state"
@@ -21,6 +22,8 @@ var (
 
 var (
 	preInputRegexStr = make(map[int]*regexp.Regexp)
+	// engines of concurrently served sessions register and consult the validators
+	preInputRegexMu sync.RWMutex
 )
 
 // InvalidInputError indicates client input that was unhandled by the bytecode (INCMP fallthrough)
@@ -42,6 +45,8 @@ func RegisterInputValidator(k int, v string) error {
 	var ok bool
 	var err error
 
+	preInputRegexMu.Lock()
+	defer preInputRegexMu.Unlock()
 	_, ok = preInputRegexStr[k]
 	if ok {
 		return fmt.Errorf("input checker with key '%d' already registered", k)
@@ -55,6 +60,8 @@ func ValidInput(input []byte) (int, error) {
 	if inputRegex.Match(input) {
 		return -1, nil
 	}
+	preInputRegexMu.RLock()
+	defer preInputRegexMu.RUnlock()
 	for k, v := range preInputRegexStr {
 		logg.Tracef("custom check input", "i", k, "regex", v)
 		if v.Match(input) {
